@@ -7,7 +7,6 @@ import (
 	"os"
 	"path/filepath"
 	"runtime/debug"
-	"sort"
 	"strings"
 	"time"
 
@@ -762,5 +761,3 @@ func (x *runner) typedParallel(forms []*formSpec, pols []*policy) {
 	}
 	x.checkUntouched(what)
 }
-
-var _ = sort.Strings
